@@ -77,6 +77,8 @@ Definition collect_provider_distribution (depth_dec rate pool_units : Z) (lps : 
   collect_pd_loop rowan_pd (dec_round_int rowan_pd) pool_units lps 0.
 
 (* LPs of a pool, in store order *)
-Definition lps_of (asset : Z) (lps : store lprov) : list (Z * Z) :=
-  map (fun kv => (lp_addr_of (fst kv), lp_units (snd kv)))
-      (filter (fun kv => lp_asset_of (fst kv) =? asset) lps).
+Definition lps_of (asset : Z) (lps : store (store lprov)) : list (Z * Z) :=
+  match get asset lps with
+  | Some m => map (fun kv => (fst kv, lp_units (snd kv))) m
+  | None => []
+  end.
